@@ -56,11 +56,14 @@ func (a lin) scale(s int64) lin { return newLin().addScaled(a, s) }
 func linConst(k int64) lin { l := newLin(); l.k = k; return l }
 func linVar(v lvar) lin    { l := newLin(); l.c[v] = 1; return l }
 
-// constraint: l <= 0
-type cons struct{ l lin }
+// constraint: l <= 0 (or, when ne is set, l != 0 — used only to sharpen bounds)
+type cons struct {
+	l  lin
+	ne bool
+}
 
-func le(a, b lin) cons { return cons{a.addScaled(b, -1)} }                                // a <= b
-func lt(a, b lin) cons { c := a.addScaled(b, -1); c.k++; return cons{c} }                 // a < b  (integers)
+func le(a, b lin) cons { return cons{l: a.addScaled(b, -1)} }                                // a <= b
+func lt(a, b lin) cons { c := a.addScaled(b, -1); c.k++; return cons{l: c} }                 // a < b  (integers)
 func ge(a, b lin) cons { return le(b, a) }                                                // a >= b
 func eqc(a, b lin) []cons { return []cons{le(a, b), le(b, a)} }                           // a == b
 
@@ -742,6 +745,8 @@ func (lb *LB) condFacts(cond ssa.Value, truth bool) []cons {
 		return []cons{le(b, a)}
 	case token.EQL:
 		return eqc(a, b)
+	case token.NEQ:
+		return []cons{{l: a.addScaled(b, -1), ne: true}}
 	}
 	return nil
 }
@@ -801,7 +806,7 @@ func tighten(c cons) cons {
 		fl--
 	}
 	r.k = -fl
-	return cons{r}
+	return cons{l: r}
 }
 
 func consKey(c cons) string {
@@ -840,6 +845,9 @@ func infeasible(cs []cons, limit int) bool {
 		return false
 	}
 	for _, c := range cs {
+		if c.ne {
+			continue
+		}
 		if addc(c) {
 			return true
 		}
@@ -895,7 +903,7 @@ func infeasible(cs []cons, limit int) bool {
 				g := gcd64(a, b)
 				comb := p.l.scale(b / g).addScaled(n.l, a/g)
 				delete(comb.c, best)
-				if addc(cons{comb}) {
+				if addc(cons{l: comb}) {
 					return true
 				}
 			}
@@ -961,15 +969,40 @@ type alt struct {
 }
 
 func (lb *LB) proveWith(goals []cons, facts []cons, subst map[lvar]lin, depth int) bool {
-	sf := make([]cons, len(facts))
-	for i, f := range facts {
-		sf[i] = cons{lb.applySubst(f.l, subst)}
+	sf := make([]cons, 0, len(facts))
+	var nes []cons
+	for _, f := range facts {
+		c := cons{l: lb.applySubst(f.l, subst), ne: f.ne}
+		if c.ne {
+			nes = append(nes, c)
+		} else {
+			sf = append(sf, c)
+		}
+	}
+	// x != 0 together with x >= 0 gives x >= 1 (and symmetrically)
+	for _, n := range nes {
+		below := cons{l: n.l.clone()} // l <= -1 ?
+		below.l.k++
+		if infeasible(lb.closure(append(append([]cons{}, sf...), below), subst), 2000) {
+			// l <= -1 impossible  =>  l >= 1
+			up := cons{l: n.l.scale(-1)}
+			up.l.k++
+			sf = append(sf, up)
+			continue
+		}
+		above := cons{l: n.l.scale(-1)}
+		above.l.k++
+		if infeasible(lb.closure(append(append([]cons{}, sf...), above), subst), 2000) {
+			dn := cons{l: n.l.clone()}
+			dn.l.k++
+			sf = append(sf, dn)
+		}
 	}
 	var failing []cons
 	for _, g := range goals {
-		g = cons{lb.applySubst(g.l, subst)}
+		g = cons{l: lb.applySubst(g.l, subst)}
 		// negate: g.l >= 1  <=>  -g.l + 1 <= 0
-		neg := cons{g.l.scale(-1)}
+		neg := cons{l: g.l.scale(-1)}
 		neg.l.k++
 		sys := lb.closure(append(append([]cons{}, sf...), neg), subst)
 		if !infeasible(sys, 4000) {
@@ -983,7 +1016,7 @@ func (lb *LB) proveWith(goals []cons, facts []cons, subst map[lvar]lin, depth in
 		return false
 	}
 	for _, g := range failing {
-		neg := cons{g.l.scale(-1)}
+		neg := cons{l: g.l.scale(-1)}
 		neg.l.k++
 		sys := lb.closure(append(append([]cons{}, sf...), neg), subst)
 		// candidate case splits
